@@ -181,6 +181,11 @@ std::string run_case(Src& s, CaseInfo& ci)
   }
   expected.push_back("F");
 
+  // scanner-level scans of a case reuse ONE scanner, so every scan after an
+  // interrupted one must still produce its complete message sequence ("exactly one
+  // import and one imported message per scan")
+  int e0 = 0;
+  ys_scanner* persistent = s.coin(70) ? ys_scanner_new(R.r, &e0) : nullptr;
   auto run = [&](int k, int action, bool scanner, std::vector<std::string>& got) -> int {
     ys_scan_opts o;
     memset(&o, 0, sizeof o);
@@ -188,7 +193,9 @@ std::string run_case(Src& s, CaseInfo& ci)
     o.script_k = k;
     o.script_action = action;
     ys_scanner* sc = nullptr;
-    if (scanner)
+    if (scanner && persistent)
+      sc = persistent;
+    else if (scanner)
     {
       int e2 = 0;
       sc = ys_scanner_new(R.r, &e2);
@@ -201,10 +208,15 @@ std::string run_case(Src& s, CaseInfo& ci)
       if (!line.empty() && line[0] != 'R')
         got.push_back(line);
     ys_free(t);
-    if (sc)
+    if (sc && sc != persistent)
       ys_scanner_free(sc);
     return rc;
   };
+  struct Guard
+  {
+    ys_scanner* p;
+    ~Guard() { ys_scanner_free(p); }
+  } guard{persistent};
   auto join = [](const std::vector<std::string>& v) {
     std::string o;
     for (auto& l : v) o += l + "; ";
@@ -272,6 +284,8 @@ std::string run_case(Src& s, CaseInfo& ci)
   if (!import_order.empty())
     ci.classes.push_back("imports");
   ci.classes.push_back(strf("flags-%d", flags));
+  if (persistent)
+    ci.classes.push_back("one-scanner-reused-for-all-scans");
   return "";
 }
 
